@@ -59,6 +59,13 @@ Theorem C22_stream_equals_concat : forall o bs outs,
 Proof. exact trunc_stream_concat. Qed.
 Print Assumptions C22_stream_equals_concat.
 
+(** StreamSearch with a collecting phase (FlushWallTime > 0): the flushed aggregate passes through
+    limitSender's truncator once more; that second truncation changes nothing *)
+Theorem C22_flush_then_limit_is_identity : forall o bs r,
+  collect o bs = Ok r -> truncate o r = Ok r.
+Proof. exact collect_then_truncate. Qed.
+Print Assumptions C22_flush_then_limit_is_identity.
+
 (** ---- 4. A chunk shortened by the match limit (repaired code, /repo commit 185a3da).
     Content made of the whole terminated lines [ls]; cutting to the first [k] ranges removes
     n = (old last end line) - (new last end line) lines and leaves exactly the leading
@@ -176,6 +183,8 @@ Example ex_truncate : exists res, truncate {| o_doc := 2; o_match := 4; o_chunk 
 Proof. eexists. split; vm_compute; reflexivity. Qed.
 Example ex_stream : exists outs, trunc_stream w_opts (init_state w_opts) w_batches = Ok outs /\
   map (fun p => length (fst p)) outs = [4; 0].
+Proof. eexists. split; vm_compute; reflexivity. Qed.
+Example ex_flush : exists r, collect w_opts w_batches = Ok r /\ map f_id r = [1;5;2;4]%N.
 Proof. eexists. split; vm_compute; reflexivity. Qed.
 Definition ex_chunk : cmatch :=
   {| cm_content := unlines w_lines; cm_ranges := [(1,1);(2,2);(3,3);(4,4)]%N; cm_sym := false |}.
